@@ -93,6 +93,7 @@ func runC33(c *Ctx) {
 			}
 		}
 		r.Check(same, "R-KEY-SAME", un+"|Upload", u.Pos(at[0].Pos()), "the uploaded key and the presigned/returned key are one value", "Upload writes to one key and signs/returns another")
+		seedfixC33(c, un, u, root(keys[0]), u.Pos(at[0].Pos()))
 		os := u.Origins(root(keys[0]), &OriginOpts{Into: true, MaxNodes: 1500})
 		random := []string{}
 		clock := []string{}
@@ -128,6 +129,7 @@ func runC43(c *Ctx) {
 		return
 	}
 	r.Analysed("otel:"+shortName(end), "otel:"+shortName(start))
+	seedfixC43(c, u)
 	isEnd := u.CallMatcher(HasSuffix("trace.Span.End"), true)
 	ends := u.Calls(end, HasSuffix("trace.Span.End"))
 	// End nowhere else in the module
